@@ -142,6 +142,8 @@ func specsC03(tier string) []seqmc.Spec {
 		cfg.ops = append(cfg.ops, upd("t1", "x", 1, 1003), upd("t1", "x", 2, 1004))
 		// a leaf stamped far ahead of the collector's clock (device time is not collector time)
 		cfg.ops = append(cfg.ops, upd("t1", "f", 1<<40, 4))
+		// data leaves whose update path starts with an element named like the metadata root
+		cfg.ops = append(cfg.ops, updO("t1", "o", "meta/x", 1, 1), op{kind: "upd", target: "t1", ts: 1, prefix: ps("a"), ups: []updSpec{{ps("meta/y"), 1}}})
 		// atomic groups at one prefix whose member PATHS differ while the values
 		// agree position by position (a keyed row replaced by another)
 		cfg.ops = append(cfg.ops, atomicNamed("t1", "k", 3, []string{"m", "p"}, 1, 2), atomicNamed("t1", "k", 2, []string{"p", "n"}, 1, 1))
